@@ -14,6 +14,7 @@ package z80
 // The fields of CPU the contracts speak about.  A field added later is
 // "unmodelled": a free unknown of every pre-state, havocked by every call,
 // never frame-checked.
+//@ import "context"
 //@ fields CPU States Memory IO RETNHandler RETIHandler Interrupt BreakPoints HALT
 
 // ---------------------------------------------------------------- decode + execute
@@ -28,10 +29,33 @@ package z80
 
 //@ func (cpu *CPU) Step()
 //@   layer P
+//@   counts g.Stepped
 //@   requires vsGhostMem(cpu.Memory)
 //@   ensures [diff] vsStepDiff(cpu, old(cpu), g, old(g)) == 0
 //@   ensures [diffalt] vsStepDiffStmt(cpu, old(cpu), g, old(g)) == 0
 //@   modifies cpu.States, cpu.HALT, cpu.Interrupt, g.Mem, g.Rd, g.Wr, g.PIn, g.POut, g.Retn, g.Reti, g.Log, g.LogN
+
+// Run: the CPU is changed only by `HALT = false` on entry and by calls of Step
+// (frame of the loop body); Run returns ErrBreakPoint / nil exactly after the
+// first Step that leaves PC on a breakpoint / has executed a HALT (breakpoint
+// wins), a context error only from the loop head (a whole number of Steps),
+// and always after at least one Step unless cancelled.  The ghost flag
+// g.Stepped is set by every call of Step.  The invariant says that at every
+// loop head neither stop condition holds once a Step has run - "never earlier
+// or later": the Step after which a stop condition holds is the last one.
+//@ func (cpu *CPU) Run(ctx context.Context) (err error)
+//@   layer P
+//@   props C08 C13
+//@   requires vsGhostMem(cpu.Memory)
+//@   requires !g.Stepped
+//@   ensures [at-least-one-step] g.Stepped || (err != nil && err != ErrBreakPoint)
+//@   ensures [breakpoint] err != ErrBreakPoint || (g.Stepped && vsBPHit(cpu.BreakPoints, cpu.PC))
+//@   ensures [halt] err != nil || (g.Stepped && cpu.HALT && !vsBPHit(cpu.BreakPoints, cpu.PC))
+//@   modifies cpu.States, cpu.HALT, cpu.Interrupt, g.Mem, g.Rd, g.Wr, g.PIn, g.POut, g.Retn, g.Reti, g.Log, g.LogN, g.Stepped
+//@ loop #0
+//@   invariant !cpu.HALT
+//@   invariant !g.Stepped || !vsBPHit(cpu.BreakPoints, cpu.PC)
+//@   modifies cpu.States, cpu.HALT, cpu.Interrupt, g.Mem, g.Rd, g.Wr, g.PIn, g.POut, g.Retn, g.Reti, g.Log, g.LogN, g.Stepped
 
 //@ func (cpu *CPU) processInterrupt() (accepted bool)
 //@   layer P
